@@ -76,6 +76,16 @@ CHECKS = {
          "Every change of owner, worker, control addresses, beneficiary, terms and pending data between two consecutive observations must be a transition the handover protocols allow for the caller and epoch seen (two-sided owner change, worker change no earlier than the delay and only via owner confirmation or the deadline callback, beneficiary change with nominee + active beneficiary approval); rejected calls change nothing; current parties keep their rights and nominees have none (probed). Held on what was explored.",
          "Trusted: MVM; beneficiary term 'active' = not expired and quota not exhausted.",
          "DESIGN.md 3/C13"),
+ "C14": ("exploration",
+         "vesting envelope (lower and upper bound from observed lock events, independent linear schedule), quantisation grid, and withdrawal oracle over generated miner histories incl. 190-day tails",
+         "Locked funds never fall below what the 180-day linear schedules of the observed lock events (creation deposit, 75% of each reward) require, minus at most what the miner burnt/paid as its own penalties; after an unlocking event no more remains than the slowest reading of the schedules allows (so everything unlocks, once); table entries lie on the 12 h grid of the miner's offset; every withdrawal is by owner/beneficiary, paid only to the beneficiary, within quota/expiry, never with unprocessed early terminations, leaves all collateral covered and no fee debt. Held on what was explored.",
+         "Trusted: MVM; lock amounts are taken as 75% (floor) of the observed ApplyRewards reward; penalties paid out of vesting are over-approximated by everything the miner burnt.",
+         "DESIGN.md 3/C14"),
+ "C15": ("fault_enumeration",
+         "per-message / per-callback fee accounting (burnt + reporter share + fee-debt change) against independently recomputed fees (floating-point BR projection), debt gating, and re-runs of every consensus-fault report from a snapshot with the reporter transfer failing",
+         "Deadline callbacks closing with faulty power charge at least BR(3.51 d) of that power (recomputed numerically from the estimates passed to the callback, 2% tolerance, only when the estimates are well-conditioned); early terminations settled in a message are charged at least the pledge/age floor (2%..8.5%); consensus-fault penalty == burnt + reporter share + debt change exactly, also when the reporter transfer fails (enumerated); reporter reward <= amount taken; WithdrawBalance / PreCommit / DeclareFaultsRecovered succeed with debt only if they repay it in full; no value flows to a penalised miner. Held on what was explored.",
+         "Trusted: MVM; worlds start from a converged network power estimate (the whale's proven power) so that projections are meaningful; the upper protocol cap of termination fees (105% of the fault fee) is not checked, only the floor.",
+         "DESIGN.md 3/C15, 5.2"),
  "C16": ("exploration",
          "history + executable reference model (payment channel) over generated voucher/settle/collect histories on the real actor",
          "Every generated history is executed on the real paych actor inside the monitoring VM; after every call the observed acceptance, to_send, lanes, settle heights, payouts and actor deletion are compared with a literal reference channel. Held on the histories explored; not a proof.",
